@@ -522,6 +522,16 @@ def chunk_last(ctx, rr):
                             ok = True
                         elif isinstance(flag, ast.Compare):
                             ok = False
+                    if ok is None and isinstance(f.iter, ast.Call) and isinstance(f.iter.func, ast.Name) and f.iter.func.id == 'enumerate' \
+                            and isinstance(f.target, ast.Tuple) and f.target.elts and isinstance(f.target.elts[0], ast.Name) and isinstance(flag, ast.Compare):
+                        # 0-based position from enumerate: last iff position == count - 1, where count is the chunk-count local
+                        I = f.target.elts[0].id
+                        from ..dataflow import rtext as _rtext3
+                        txt = _rtext3(P, u, flag, keep=tuple(n_ for n_ in [x.id for x in ast.walk(flag) if isinstance(x, ast.Name)]))
+                        others = [x.id for x in ast.walk(flag) if isinstance(x, ast.Name) and x.id != I]
+                        if len(others) == 1:
+                            N_ = others[0]
+                            ok = txt in ('%s==%s-1' % (I, N_), '%s-1==%s' % (N_, I), '%s+1==%s' % (I, N_), '%s>=%s-1' % (I, N_))
                     if ok is None:
                         raise AnalysisError('R-CHUNK-LAST: is-last expression `%s` of %s not recognised' % (ast.unparse(flag), u.qual))
                     rr.ob(ctx.where(u, y), 'the is-last flag `%s` is true exactly on the last iteration of the chunk loop' % ast.unparse(flag), ok=ok)
@@ -531,8 +541,12 @@ def chunk_last(ctx, rr):
     # the number of chunks is ceil(len / size): never a chunk beyond the end of the string
     for u in chunk_gens:
         for a in P.own(u, ast.Assign):
-            if isinstance(a.targets[0], ast.Name) and any(isinstance(f, ast.For) and isinstance(f.iter, ast.Call) and isinstance(f.iter.func, ast.Name) and f.iter.func.id == 'range'
-                                                          and f.iter.args and ast.unparse(f.iter.args[0]) == a.targets[0].id for f in P.own(u, ast.For)):
+            if isinstance(a.targets[0], ast.Name) and (any(isinstance(f, ast.For) and isinstance(f.iter, ast.Call) and isinstance(f.iter.func, ast.Name) and f.iter.func.id == 'range'
+                                                           and f.iter.args and ast.unparse(f.iter.args[0]) == a.targets[0].id for f in P.own(u, ast.For))
+                                                       or any(isinstance(f_, ast.For) and isinstance(f_.iter, ast.Call) and isinstance(f_.iter.func, ast.Name) and f_.iter.func.id == 'enumerate'
+                                                              for f_ in P.own(u, ast.For)) and
+                                                       any(isinstance(y_, ast.Yield) and isinstance(y_.value, ast.Tuple) and y_.value.elts and isinstance(y_.value.elts[0], ast.Compare)
+                                                              and any(isinstance(x_, ast.Name) and x_.id == a.targets[0].id for x_ in ast.walk(y_.value.elts[0])) for y_ in P.own(u, ast.Yield))):
                 from ..dataflow import rtext as _rtext2
                 txt = _rtext2(P, u, a.value)
                 ps = u.params
